@@ -1,6 +1,6 @@
 """C18: health service. Specs: Health (Mechanism model: channels, versions, watchers; invariants + liveness CatchUp),
 Gen_Health (operation sequences), Trace_Health (Contract with subset-construction over the per-epoch status log)."""
-import json, random, time
+import json, os, random, time
 from . import core, simple
 from .core import ToolError
 
@@ -51,6 +51,117 @@ def _drop_watch(ev):
     return ev
 
 
+def preempt_rounds(rnd, n):
+    """Single-threaded rounds in which tokio's cooperative budget preempts an operation at its k-th await (burn = 129 - k)."""
+    out = []
+    for _ in range(n):
+        s = rnd.choice(['a', 'b', 'n'])
+        nw, tasks = 0, []
+        burn = lambda: rnd.choice([0, 0, 124, 125, 126, 127, 128])
+        for _t in range(rnd.randint(2, 4)):
+            ops, role = [], rnd.random()
+            if role < 0.5:
+                for _ in range(rnd.randint(1, 2)):
+                    ops.append({'op': 'set', 's': s, 'v': rnd.randint(0, 2), 'w': 0, 'burn': burn()} if rnd.random() < 0.85 else {'op': 'clear', 's': s, 'v': 0, 'w': 0, 'burn': burn()})
+            elif role < 0.85:
+                nw += 1
+                ops.append({'op': 'watch_retry', 's': s, 'v': 3, 'w': nw, 'burn': burn()})
+                for _ in range(rnd.randint(1, 2)):
+                    ops.append({'op': 'next', 's': '', 'v': 0, 'w': nw, 'burn': burn()})
+            else:
+                for _ in range(rnd.randint(1, 2)):
+                    ops.append({'op': 'check', 's': s, 'v': 0, 'w': 0, 'burn': burn()})
+            tasks.append(ops)
+        epi = [{'op': 'set', 's': s, 'v': rnd.randint(0, 2), 'w': 0}, {'op': 'check', 's': s, 'v': 0, 'w': 0}]
+        for w in range(1, nw + 1):
+            epi += [{'op': 'next', 's': '', 'v': 0, 'w': w}] * 2
+        out.append({'class': 'preempt', 'tasks': tasks, 'epilogue': epi})
+    return out
+
+
+def conc_rounds(rnd, n):
+    """Rounds on the 8-worker runtime: writers / watchers / checkers on one service, all released by a barrier."""
+    out = []
+    for _ in range(n):
+        s = rnd.choice(['a', 'b', 'n'])
+        nw, threads = 0, []
+        if rnd.random() < 0.5:
+            for _t in range(rnd.randint(3, 4)):
+                threads.append([{'op': 'set', 's': s, 'v': rnd.randint(0, 2), 'w': 0}])
+            for _t in range(rnd.randint(2, 3)):
+                nw += 1
+                threads.append([{'op': 'watch_retry', 's': s, 'v': 2000, 'w': nw}, {'op': 'next', 's': '', 'v': 0, 'w': nw}])
+            rnd.shuffle(threads)
+            kind = 'conc_register_race'
+        else:
+            for _t in range(rnd.randint(2, 5)):
+                ops, role = [], rnd.random()
+                if role < 0.45:
+                    for _ in range(rnd.randint(1, 3)):
+                        ops.append({'op': 'set', 's': s, 'v': rnd.randint(0, 2), 'w': 0} if rnd.random() < 0.85 else {'op': 'clear', 's': s, 'v': 0, 'w': 0})
+                elif role < 0.85:
+                    nw += 1
+                    ops.append({'op': 'watch_retry', 's': s, 'v': rnd.choice([1, 20, 200]), 'w': nw})
+                    for _ in range(rnd.randint(1, 3)):
+                        ops.append({'op': 'next', 's': '', 'v': 0, 'w': nw})
+                else:
+                    for _ in range(rnd.randint(1, 3)):
+                        ops.append({'op': 'check', 's': s, 'v': 0, 'w': 0})
+                threads.append(ops)
+            kind = 'conc_mixed'
+        epi = [{'op': 'set', 's': s, 'v': rnd.randint(0, 2), 'w': 0}, {'op': 'check', 's': s, 'v': 0, 'w': 0}]
+        for w in range(1, nw + 1):
+            epi += [{'op': 'next', 's': '', 'v': 0, 'w': w}] * 2
+        out.append({'class': kind, 'threads': threads, 'epilogue': epi})
+    return out
+
+
+LIN_CLAUSE = 'C18.HistoryIsAnInterleavingOfAtomicOperations'
+
+
+def concurrent_part(verdict, cov, tag, tier, seed):
+    """Concurrent writers / watchers: call-ret histories from (a) deterministic preemption rounds and (b) the multi-threaded
+    runtime must be linearizable against Health.tla (Trace_HealthLin)."""
+    rnd = random.Random(seed + 18)
+    fam = (('preempt', preempt_rounds(rnd, 12000 if tier == 'thorough' else 1500)),
+           ('conc', conc_rounds(rnd, 3000 if tier == 'thorough' else 300)))
+    cov['linearizability'] = {}
+    for label, stims in fam:
+        ev, path = simple.run_lab('health', stims, tag, label, timeout=3000)
+        runs = core.split_runs(ev)
+        for r in runs:
+            end = [e for e in r if e.get('e') == 'end']
+            if end and end[0].get('outcome') != 'ok':
+                verdict.add(f'{label}:{"NoPanic" if end[0]["outcome"] == "panic" else "NoHang"}:{r[0]["stim"].get("class")}',
+                            f'run {r[0].get("run")} ended with {end[0]}', replay_rows=r)
+        good = [r for r in runs if not any(e.get('e') == 'end' and e.get('outcome') != 'ok' for e in r)]
+        st = core.lin_validate(verdict, good, 'Trace_HealthLin', 'Trace_HealthLin.cfg', tag, label, LIN_CLAUSE)
+        st['preempted_ops'] = sum(1 for s in stims for t in s.get('tasks', []) for o in t if o.get('burn', 0) >= 124)
+        st['stream_ends_observed'] = sum(1 for e in ev if e.get('e') == 'ret' and e['res'].get('r') == 'end')
+        cov['linearizability'][label] = st
+        cov['traces_validated_against_impl'] += len(good)
+        cov['samples'].append({'family': label, 'stimulus': simple.sample_of(stims)})
+    # the search must be able to reject: swap the results of two different-valued checks/items in a sequential epilogue
+    probe = None
+    for r in core.split_runs(core.read_ndjson(os.path.join(core.WORK, tag, 'preempt.trace.ndjson'))):
+        j = [i for i, e in enumerate(r) if e.get('e') == 'joined']
+        if not j:
+            continue
+        items = [i for i in range(j[0], len(r)) if r[i].get('e') == 'ret' and r[i]['res'].get('r') == 'status']
+        if items:
+            rr = list(r)
+            rr[items[0]] = dict(rr[items[0]], res=dict(rr[items[0]]['res'], status=(rr[items[0]]['res']['status'] + 1) % 3))
+            probe = rr
+            break
+    if probe is None:
+        raise ToolError('no history suitable for the linearizability corruption probe')
+    pv = core.Verdict(prop := verdict.prop)
+    core.lin_validate(pv, [probe], 'Trace_HealthLin', 'Trace_HealthLin.cfg', tag, 'probe', LIN_CLAUSE)
+    if not pv.violations:
+        raise ToolError('Trace_HealthLin accepted a history whose final check result was altered: the linearizability check is vacuous')
+    cov['linearizability']['corruption_probe'] = 'altered final check result rejected'
+
+
 def check(prop, tier, seed):
     t0 = time.time()
     core.build_harness()
@@ -88,17 +199,36 @@ def check(prop, tier, seed):
                                                 (('flip_item', _flip_item), ('drop_watch', _drop_watch)))
     cov['mechanism_drift'] = f'{cov["mechanism_trace"]["runs_rejected"]} runs are not behaviours of the Mechanism model'
     cov['samples'].append({'family': 'ops', 'stimulus': simple.sample_of(stims)})
+    concurrent_part(verdict, cov, tag, tier, seed)
     return simple.finish(prop, tier, seed, verdict, cov, mc, t0,
-                         ['operations are applied at quiescent points of a single-threaded runtime (the multi-threaded driver of the design is not built)',
+                         ['sequential families: operations are applied at quiescent points of a single-threaded runtime',
+                          'concurrent families: (a) preemption rounds - tokio\'s cooperative budget forces a yield at a chosen await inside an operation, deterministic; (b) rounds on an 8-worker runtime - which interleavings occur there is up to the machine',
+                          'a Watch response stream is a pull pipeline that may fetch several items ahead of the caller (EncodeBody batching): Trace_HealthLin models it as a queue filled while a next call is in progress',
                           'the first item of a watch stream may be the status current at subscription or any newer one (the stream reads at first poll)'],
-                         'tlc MC_Health*.cfg, Gen_Health.cfg (-simulate); vh health; tlc Trace_Health.cfg; tlc Trace_HealthMech.cfg')
+                         'tlc MC_Health*.cfg, Gen_Health.cfg (-simulate); vh health; tlc Trace_Health.cfg; tlc Trace_HealthMech.cfg; tlc Trace_HealthLin.cfg')
 
 
 def replay(prop, path):
     core.build_harness()
-    stims = [r['stim'] for r in core.read_ndjson(path) if r.get('e') == 'reset']
+    rows = core.read_ndjson(path)
+    runs = core.split_runs(rows)
     verdict = core.Verdict(prop)
     cov = {'traces_validated_against_impl': 0, 'samples': []}
-    ev, p = simple.run_lab('health', stims, f'{prop}_replay', 'replay')
-    simple.validate(prop, 'Trace_Health', verdict, ev, p, 'replay', cov, clause_filter=lambda c: c.startswith('C18.') or c in ('NoPanic', 'NoHang'))
+    seq = [r for r in runs if 'ops' in r[0].get('stim', {})]
+    hist = [r for r in runs if 'ops' not in r[0].get('stim', {})]
+    if seq:
+        ev, p = simple.run_lab('health', [r[0]['stim'] for r in seq], f'{prop}_replay', 'replay')
+        simple.validate(prop, 'Trace_Health', verdict, ev, p, 'replay', cov, clause_filter=lambda c: c.startswith('C18.') or c in ('NoPanic', 'NoHang'))
+    if hist:
+        # deterministic (preemption) rounds are re-run as they are; multi-threaded rounds are re-run 300 times each (which
+        # interleaving occurs is up to the machine); the recorded history itself is re-validated and reported as a note
+        note = core.Verdict(prop)
+        core.lin_validate(note, hist, 'Trace_HealthLin', 'Trace_HealthLin.cfg', f'{prop}_replay', 'recorded', LIN_CLAUSE)
+        print(f'NOTE property={prop} recorded histories in the replay file: {len(hist)}, of which not linearizable: {len(note.violations)}')
+        stims = []
+        for r in hist:
+            st = r[0]['stim']
+            stims += [st] * (1 if st.get('class') == 'preempt' else 300)
+        ev, p = simple.run_lab('health', stims, f'{prop}_replay', 'rerun', timeout=3000)
+        core.lin_validate(verdict, core.split_runs(ev), 'Trace_HealthLin', 'Trace_HealthLin.cfg', f'{prop}_replay', 'rerun', LIN_CLAUSE)
     return verdict.finish()
